@@ -412,6 +412,15 @@ func simpleExpr(e ast.Expr) bool {
 	return false
 }
 
+// lazy wraps an expression in func() interface{} { return e }: the hooks evaluate it only while maps are tracked, and
+// under recover, so that a hook never dereferences what the original statement would have guarded.
+func lazy(e ast.Expr) ast.Expr {
+	return &ast.FuncLit{
+		Type: &ast.FuncType{Params: &ast.FieldList{}, Results: &ast.FieldList{List: []*ast.Field{{Type: &ast.InterfaceType{Methods: &ast.FieldList{}}}}}},
+		Body: &ast.BlockStmt{List: []ast.Stmt{&ast.ReturnStmt{Results: []ast.Expr{e}}}},
+	}
+}
+
 func vrtCall(fn string, args ...ast.Expr) *ast.CallExpr {
 	return &ast.CallExpr{Fun: &ast.SelectorExpr{X: ast.NewIdent("vrt"), Sel: ast.NewIdent(fn)}, Args: args}
 }
@@ -490,7 +499,7 @@ func (r *rw) mapHooks(s ast.Stmt) (pre, post []ast.Stmt, ok bool) {
 		r.needVrt = true
 		r.mapCnt++
 		id := fmt.Sprintf("_vm%d", r.mapCnt)
-		pre = []ast.Stmt{&ast.AssignStmt{Lhs: []ast.Expr{ast.NewIdent(id)}, Tok: token.DEFINE, Rhs: []ast.Expr{vrtCall("MapIterBegin", x.X)}}}
+		pre = []ast.Stmt{&ast.AssignStmt{Lhs: []ast.Expr{ast.NewIdent(id)}, Tok: token.DEFINE, Rhs: []ast.Expr{vrtCall("MapIterBegin", lazy(x.X))}}}
 		pre = append(r.mapReads(s), pre...)
 		end := func() ast.Stmt { return &ast.ExprStmt{X: vrtCall("MapIterEnd", ast.NewIdent(id))} }
 		x.Body.List = beforeReturns(x.Body.List, end)
@@ -501,8 +510,8 @@ func (r *rw) mapHooks(s ast.Stmt) (pre, post []ast.Stmt, ok bool) {
 		for _, l := range x.Lhs {
 			if ix, isIx := l.(*ast.IndexExpr); isIx && simpleExpr(ix.X) {
 				r.needVrt = true
-				pre = append(pre, &ast.ExprStmt{X: vrtCall("MapWrite", ix.X)})
-				post = append(post, &ast.ExprStmt{X: vrtCall("MapWriteEnd", ix.X)})
+				pre = append(pre, &ast.ExprStmt{X: vrtCall("MapWrite", lazy(ix.X))})
+				post = append(post, &ast.ExprStmt{X: vrtCall("MapWriteEnd", lazy(ix.X))})
 			}
 		}
 		pre = append(r.mapReads(s), pre...)
@@ -510,13 +519,13 @@ func (r *rw) mapHooks(s ast.Stmt) (pre, post []ast.Stmt, ok bool) {
 	case *ast.IncDecStmt:
 		if ix, isIx := x.X.(*ast.IndexExpr); isIx && simpleExpr(ix.X) {
 			r.needVrt = true
-			return []ast.Stmt{&ast.ExprStmt{X: vrtCall("MapWrite", ix.X)}}, []ast.Stmt{&ast.ExprStmt{X: vrtCall("MapWriteEnd", ix.X)}}, true
+			return []ast.Stmt{&ast.ExprStmt{X: vrtCall("MapWrite", lazy(ix.X))}}, []ast.Stmt{&ast.ExprStmt{X: vrtCall("MapWriteEnd", lazy(ix.X))}}, true
 		}
 	case *ast.ExprStmt:
 		if c, isCall := x.X.(*ast.CallExpr); isCall && len(c.Args) == 2 {
 			if f, isId := c.Fun.(*ast.Ident); isId && f.Name == "delete" && simpleExpr(c.Args[0]) {
 				r.needVrt = true
-				return []ast.Stmt{&ast.ExprStmt{X: vrtCall("MapWrite", c.Args[0])}}, []ast.Stmt{&ast.ExprStmt{X: vrtCall("MapWriteEnd", c.Args[0])}}, true
+				return []ast.Stmt{&ast.ExprStmt{X: vrtCall("MapWrite", lazy(c.Args[0]))}}, []ast.Stmt{&ast.ExprStmt{X: vrtCall("MapWriteEnd", lazy(c.Args[0]))}}, true
 			}
 		}
 		pre = r.mapReads(s)
@@ -590,7 +599,7 @@ func (r *rw) mapReads(s ast.Stmt) []ast.Stmt {
 					if !seen[b.String()] {
 						seen[b.String()] = true
 						r.needVrt = true
-						out = append(out, &ast.ExprStmt{X: vrtCall("MapRead", y.X)})
+						out = append(out, &ast.ExprStmt{X: vrtCall("MapRead", lazy(y.X))})
 					}
 				}
 			}
